@@ -28,7 +28,8 @@ def jobs(tier):
     J.append(Job(S, "background", "1,0,1,0" if q else "2,0,1,0", p8, workers=8))
     J.append(Job(S, "barrier", "2,0,0,0" if q else "3,0,0,0", p8, workers=8))
     J.append(Job(S, "barrier", "1,1,0,0" if q else "2,1,0,0", p8, workers=8))
-    J.append(Job(S, "wrap", "1,0,0,0" if q else "2,0,0,0", dict(p8, n=7), workers=8))
+    # P=2: the reclaimer has to be switched in, and out again in the middle of its drain, while the owner self-flushes
+    J.append(Job(S, "wrap", "2,0,0,0" if q else "3,0,0,0", dict(p8, n=7), workers=8))
     J.append(Job(S, "wrap", "1,1,0,0", dict(p8, n=5), workers=8))
     J.append(Job(S, "late_reader", "2,0,0,0" if q else "3,0,0,0", p8, workers=8))
     J.append(Job(S, "late_reader", "1,1,0,0", p8, workers=8))
